@@ -6,9 +6,10 @@
     references, shared open bonds, joins that reuse an axis - plus the numpy.tensordot form for
     joins that use each axis once).  The model (Qib.TN.TNModel) is a hand port of symbolic_network.py WITH the repairs
     (merge: every deleted open axis once; is_consistent: exact leg count; transpose: permutation
-    test; merge: dimension test; rename_tensor: refuses the virtual tensor) and is tied to /repo
+    test; merge: dimension test; rename_tensor: refuses the virtual tensor; merge: refuses joins
+    that would leave a bond with fewer than two legs before it changes anything) and is tied to /repo
     by the exact correspondence run of checks/C08.py on every run. *)
-From Qib Require Import TN.TNSem TN.TNMergeValue TN.TNConsistentConv TN.TNGenBase Base.Inst.
+From Qib Require Import TN.TNSem TN.TNMergeValue TN.TNConsistentConv TN.TNGenBase TN.TNMergeGuard Base.Inst.
 From Run Require Import GenTN.
 Local Open Scope Z_scope.
 
@@ -39,7 +40,8 @@ Print Assumptions C08_invariant_is_exactly_is_consistent.
     what the code itself checks (the second operand of a merge is a network of its own and has to
     be consistent too).  The code refuses (ValueError): renaming the virtual tensor -1, axes that
     are not a permutation of all open axes (negative entries count from the last axis), joins out
-    of range or between axes of unequal dimension.  The iteration order of the Python sets of
+    of range or between axes of unequal dimension, joins that would leave a (fused) bond with fewer
+    than two legs.  The iteration order of the Python sets of
     shared ids (ordT, ordB) is arbitrary. *)
 Theorem C08_rename_tensor_keeps_invariant :
   forall n a c n', WF n -> rename_tensor n a c = Some n' -> WF n'.
@@ -62,20 +64,23 @@ Proof. exact merge_WF. Qed.
 Print Assumptions C08_merge_keeps_invariant.
 
 (** 2'. what acceptance means: the virtual tensor is never renamed; an accepted transposition uses
-    a permutation of ALL open axes; an accepted merge joins axes of equal dimension *)
+    a permutation of ALL open axes; an accepted merge joins axes of equal dimension and has found
+    at least two remaining legs on every (fused) bond *)
 Theorem C08_accepted_means_validated :
   (forall n c, rename_tensor n VT c = None) /\
   (forall n axes n', WF n -> transpose n axes = Some n' ->
      Permutation.Permutation (nat_axes n axes) (seq 0 (length (vbids n)))) /\
   (forall n o joins ordT ordB n', merge n o joins ordT ordB = Some n' ->
      forall Sn So j, shape n = Some Sn -> shape o = Some So -> In j joins ->
-       exists d, nth_error Sn (fst j) = Some d /\ nth_error So (snd j) = Some d).
+       exists d, nth_error Sn (fst j) = Some d /\ nth_error So (snd j) = Some d) /\
+  (forall n o joins ordT ordB n', merge n o joins ordT ordB = Some n' -> joins_starve n o joins = false).
 Proof.
-  split; [|split].
+  split; [|split; [|split]].
   - intros n c. unfold rename_tensor. rewrite Z.eqb_refl. reflexivity.
   - intros n axes n' W H. exact (transpose_is_perm n axes n' (proj1 W) H).
   - intros n o joins ordT ordB n' H Sn So j HSn HSo Hj.
     exact (merge_joins_dim_ok n o joins ordT ordB n' H Sn So HSn HSo j Hj).
+  - exact merge_not_starved.
 Qed.
 Print Assumptions C08_accepted_means_validated.
 
@@ -148,6 +153,50 @@ Proof.
     split; [intros ax [<-|[]]; vm_compute; lia | vm_compute; reflexivity].
 Qed.
 Print Assumptions C08_refusals_are_necessary.
+
+(** 3'''. joins that would leave a (fused) bond with fewer than two legs - both ends of an identity
+    wire joined with both ends of another one: a free loop, the scalar factor 2, which no network
+    of this class represents - used to trip `assert len(bond.tids) >= 2` AFTER the operands were
+    half-merged (defect of qib, repaired by proposed_fixes/C08-merge-refuses-joins-that-starve-a-
+    bond.diff): now refused in front of any change ([joins_starve]); the assertion it anticipates
+    is still there ([merge_changes] alone fails on this input); joining ONE end is accepted and
+    gives a wire again *)
+Definition wire_net : net := mkN [(-1, mkT (-1) [2; 2]%nat [0; 0] (-1))]%Z [(0, mkB 0 [-1; -1])]%Z.
+
+Theorem C08_joins_that_starve_a_bond_are_refused :
+  WF wire_net /\
+  joins_starve wire_net wire_net [(0, 0); (1, 1)]%nat = true /\
+  merge wire_net wire_net [(0, 0); (1, 1)]%nat [-1] [0] = None /\
+  merge_changes 2 wire_net wire_net [(0, 0); (1, 1)]%nat [-1] [0] = None /\
+  (exists n', merge wire_net wire_net [(0, 0)]%nat [-1] [0] = Some n' /\ is_consistent n' = true /\ shape n' = Some [2; 2]%nat).
+Proof.
+  split; [apply wf_b_WF; vm_compute; reflexivity|].
+  repeat (split; [vm_compute; reflexivity|]).
+  eexists. split; [vm_compute; reflexivity|]. split; vm_compute; reflexivity.
+Qed.
+Print Assumptions C08_joins_that_starve_a_bond_are_refused.
+
+(** ... and the refusal is EXACTLY the failure of the part of merge behind the validation (whose only
+    way to fail on consistent operands is that assertion): it refuses nothing the unrepaired code
+    handled, and behind it nothing fails any more.  BOUNDED: the seven networks of
+    [TNMergeGuard.leg_nets] (identity wires, four open legs on one bond, vector, matrix, a vector
+    on a bond with two open legs, mixed dimensions; both operands range over all of them) and all
+    validated join lists of length <= 3, enumerated by vm_compute.  In general this agreement is
+    NOT proved; checks/C08.py classifies every merge of a run independently (union-find over the
+    operands) and reports `merge:refuses-valid-operation` / `merge:accepts-invalid-operation` /
+    `merge:exception:AssertionError`. *)
+Theorem C08_leg_count_refusal_is_exactly_the_assertion_bounded :
+  forall n o joins, In n leg_nets -> In o leg_nets -> (length joins <= 3)%nat -> joins_validated n o joins = true ->
+    WF n /\ WF o /\
+    (joins_starve n o joins = true <->
+     merge_changes (length (vshape n)) n o joins (shared_keys (dkeys (tensors n)) (dkeys (tensors o)))
+                   (shared_keys (dkeys (bonds n)) (dkeys (bonds o))) = None).
+Proof.
+  intros n o joins Hn Ho L V. split; [apply leg_nets_WF; exact Hn|]. split; [apply leg_nets_WF; exact Ho|].
+  rewrite (leg_count_refusal_exact_bounded n o joins Hn Ho L V). unfold merge_changes_fails.
+  destruct (merge_changes _ n o joins _ _); split; congruence.
+Qed.
+Print Assumptions C08_leg_count_refusal_is_exactly_the_assertion_bounded.
 
 (** 4. counts: unchanged by renames and transpositions; after a merge the tensors add up, the
     bonds add up minus the fused ones (at most one per join), and for joins that use every open
@@ -300,7 +349,8 @@ Print Assumptions C08_merge_is_contraction_with_data_union.
     parts: merge's fresh-id arithmetic, join validation, del_axes, kept-axes selection; the
     preconditions of rename_tensor (public guard, delegation) / _rename_tensor / rename_bond /
     SymbolicBond; transpose's normalisation of negative axes, permutation test and selection;
-    merge's dimension test; every `return False`
+    merge's dimension test, the final test of merge's leg-count refusal (the statements in front
+    of it are pinned by gen/tn.py: MERGE_LEGS_GUARD = TNModel.joins_starve); every `return False`
     condition of is_consistent, its loop skeleton being pinned).  The theorems below are about
     these regenerated definitions: what they are FOR (freshness) and that they are what the hand
     model Qib.TN.TNModel uses - so a change of one of these expressions in /repo breaks a theorem
@@ -338,9 +388,12 @@ Theorem C08_source_merge_is_model :
   (forall ndim amap, gen_merge_del_axes ndim amap = filter (fun i => negb (nmem i amap)) (seq 0 ndim)) /\
   (forall tids, gen_merge_bond_still_ok tids = negb (Nat.ltb (length tids) 2)) /\
   (forall l amap, gen_merge_keep_shape l amap = map (fun i => nth i l O) amap) /\
-  (forall l amap, gen_merge_keep_bids l amap = map (fun i => nth i l 0) amap).
+  (forall l amap, gen_merge_keep_bids l amap = map (fun i => nth i l 0) amap) /\
+  (* the leg-count refusal: the model's test (TNModel.class_starves), and the same threshold as the assertion *)
+  (forall legs naxes : nat, gen_merge_class_refused (Z.of_nat legs) (Z.of_nat naxes) = Nat.ltb (legs - naxes) 2) /\
+  (forall tids, gen_merge_class_refused (Z.of_nat (length tids)) 0 = negb (gen_merge_bond_still_ok tids)).
 Proof.
-  refine (conj _ (conj _ (conj _ (conj _ (conj _ (conj _ (conj _ (conj _ (conj _ (conj _ _)))))))))).
+  refine (conj _ (conj _ (conj _ (conj _ (conj _ (conj _ (conj _ (conj _ (conj _ (conj _ (conj _ (conj _ _)))))))))))).
   - intros. unfold gen_merge_next_tid. repeat rewrite zmaxd_0. lia.
   - intros. unfold gen_merge_next_bid. repeat rewrite zmaxd_0. lia.
   - reflexivity.
@@ -354,6 +407,8 @@ Proof.
   - intros tids. unfold gen_merge_bond_still_ok. cmp_bool.
   - intros. reflexivity.
   - intros. reflexivity.
+  - intros legs naxes. unfold gen_merge_class_refused. cmp_bool.
+  - intros tids. unfold gen_merge_class_refused, gen_merge_bond_still_ok. cmp_bool.
 Qed.
 Print Assumptions C08_source_merge_is_model.
 
